@@ -187,8 +187,11 @@ def identify(string) -> str:
         if string.startswith("<?"):
             return "processing_instruction"
         if string.startswith("</"):
-            # (without a name it is text, like a left angle bracket)
-            return "end_tag" if len(string) > 2 else "error"
+            # (without a name it is text, like a left angle bracket; an
+            # end tag that is not closed is no tag, like such a start tag)
+            if len(string) > 2 and string.endswith(">"):
+                return "end_tag"
+            return "error"
         if string.endswith("/>"):
             return "empty_tag"
         if string.endswith(">"):
